@@ -124,9 +124,10 @@ GUARD = [
     T('herm_ncv_member', 'HermEigsBase::HermEigsBase', 'HermEigsBase.h', index=0, mode='state', state_out=['m_ncv'],
       members={'m_n': 'int', 'm_nev': 'int', 'm_ncv': 'int'}, ctor_inits={'m_n': 'int', 'm_nev': 'int', 'm_ncv': 'int'},
       ctor_init_params={'m_n': 'n'}, ignore_params=['op', 'Bop'], slice=lambda fn, ss: [], ret_type='Int'),
+    # the squareness guard `m_op.cols() != m_n` (repair of finding F23) reads the operator's column count: parameter `cols`
     T('gen_ctor', 'GenEigsBase::GenEigsBase', 'GenEigsBase.h', index=0, mode='guard', throws=True,
-      members={'m_n': 'int', 'm_nev': 'int', 'm_ncv': 'int'}, ctor_inits={'m_n': 'int', 'm_nev': 'int', 'm_ncv': 'int'},
-      ctor_init_params={'m_n': 'n'}, ignore_params=['op', 'Bop'], ret_type='Res Unit'),
+      members={'m_n': 'int', 'm_nev': 'int', 'm_ncv': 'int', 'm_op': 'other'}, ctor_inits={'m_n': 'int', 'm_nev': 'int', 'm_ncv': 'int'},
+      ctor_init_params={'m_n': 'n'}, ignore_params=['op', 'Bop'], methods={('m_op', 'cols'): ('cols', 'int')}, ret_type='Res Unit'),
     T('gen_ncv_member', 'GenEigsBase::GenEigsBase', 'GenEigsBase.h', index=0, mode='state', state_out=['m_ncv'],
       members={'m_n': 'int', 'm_nev': 'int', 'm_ncv': 'int'}, ctor_inits={'m_n': 'int', 'm_nev': 'int', 'm_ncv': 'int'},
       ctor_init_params={'m_n': 'n'}, ignore_params=['op', 'Bop'], slice=lambda fn, ss: [], ret_type='Int'),
